@@ -171,7 +171,7 @@ def repeat_fragment(rng, lines):
     if m and rng.random() < 0.7:
         x = rng.choice(m)
         return lines[:i] + [l[:x.end()] + " sep%d " % i + x.group(0) + l[x.end():]] + lines[i + 1:]
-    if l[0] in "*#|!":
+    if l[0] in "*#|!" and "<ref name" not in l:      # a named reference is defined once (a second, equal definition is merged by design)
         return lines[:i + 1] + [l] + lines[i + 1:]
     return lines
 
